@@ -225,6 +225,11 @@ def _variances(run, prog):
                     n += 1
                     run.analysed["call_sites"] += 1
                     d = ev.args[0] if ev.args else None
+                    if d is not None and d[0] == "res" and d[3] and isinstance(d[3][0], tuple) and (
+                            d[3][0][0] == "owned" or (d[3][0][0] == "new" and isinstance(d[3][0][2], str) and d[3][0][2].startswith("ixai."))):
+                        # computed by a method of a package object that is not followed (a dict subclass with behaviour)
+                        raise AnalysisError(f"{c.name}.{m}: the values fed to the variance trackers come from {ir.show_nl(d)[:80]}; "
+                                            f"what that method computes is not decided")
                     ok = d is not None and d[0] == "comp" and d[1] == "dict" and _even_power(d[5])
                     run.check(ok, "VAR", f"{c.name}.squares", f"{es.path}:{ev.line}", f"{c.name}.{m}",
                               f"variance update {ir.show_nl(d)[:140] if d else None}",
